@@ -851,6 +851,11 @@ pub fn corner_extras() -> Vec<SysSpec> {
     out.push(mk("X-falsebad", vec![("b1", 1)], vec![st("a2", 2, Some(l(2, 0)), Some(b(Bin::Add, a(), T::ZExt(1, Box::new(f())))))], vec![l(1, 0), b(Bin::Eq, a(), l(2, 2))], vec![]));
     out.push(mk("X-falsebad", vec![], vec![st("a2", 2, Some(l(2, 0)), Some(inc(a())))], vec![b(Bin::Eq, a(), l(2, 3)), l(1, 0), b(Bin::Ugt, a(), l(2, 1))], vec![]));
     out.push(mk("X-falsebad", vec![("b1", 1)], vec![st("a2", 2, Some(l(2, 0)), Some(inc(a())))], vec![b(Bin::And, f(), T::not(f())), l(1, 0), b(Bin::And, f(), b(Bin::Eq, a(), l(2, 1)))], vec![]));
+    // a constraint that is the literal false (alone, after a satisfiable one, as `x and not x`): the system has no
+    // execution at all, whatever the bad states say
+    out.push(mk("X-falseconstraint", vec![("b1", 1)], vec![st("a2", 2, Some(l(2, 0)), Some(inc(a())))], vec![b(Bin::Eq, a(), l(2, 1))], vec![l(1, 0)]));
+    out.push(mk("X-falseconstraint", vec![("b1", 1)], vec![st("a2", 2, Some(l(2, 0)), Some(inc(a())))], vec![b(Bin::Eq, a(), l(2, 0)), f()], vec![l(1, 1), l(1, 0)]));
+    out.push(mk("X-falseconstraint", vec![("b1", 1)], vec![st("a2", 2, Some(l(2, 0)), Some(inc(a())))], vec![b(Bin::Eq, a(), l(2, 2))], vec![b(Bin::And, f(), T::not(f()))]));
     // a memory (index width != data width) that is cleared to a NON-literal fill value (an input / a changing
     // state): the constant array is rebuilt whenever its fill expression is rewritten (step renaming, simplification)
     {
